@@ -9,12 +9,36 @@ VM = ("C01", "C03")
 VF = ("srv.cl", "net")
 
 
+def vis_machine(k):
+    """spec/VisMachine.tla: the visibility bookkeeping alone, complete state space for four entity names
+    (histories of any length); the as-found variants must violate the invariants."""
+    import checklib as L
+    for cfg, must_fail in (("VisMachine_black.cfg", False), ("VisMachine_white.cfg", False),
+                           ("VisMachine_F2.cfg", True), ("VisMachine_F14.cfg", True),
+                           ("VisMachine_F20.cfg", True), ("VisMachine_F20b.cfg", True)):
+        r = C.run_tlc_in(k.sd, "VisMachine", cfg, k.wd, workers=4, timeout=900)
+        if must_fail:
+            k.found_runs.append({"config": cfg, "found": r["violated"], "states_generated": r["states"]})
+            if not r["violated"]:
+                raise L.ToolError(f"vacuity: {cfg} satisfies the invariants of VisMachine")
+        else:
+            k.states += r["distinct"]
+            k.transitions += r["states"]
+            k.mc_runs.append({"config": cfg, "invariants": ["Query", "HeldExact", "HeldTruth", "Shape"],
+                              "complete_state_space": True, "distinct": r["distinct"],
+                              "states_generated": r["states"], "violated": r["violated"], "wall_s": round(r["wall"], 1)})
+            if r["violated"]:
+                k.v.violation(L.save_replay(PID, f"{cfg}-tlc-counterexample.txt", r["out"][-12000:]),
+                              f"TLC: the visibility bookkeeping violates its invariants in {cfg}")
+
+
 def main(tier, seed, replay):
     if replay:
         return C.replay_file(PID, replay)
     k = C.CoreCheck(PID, tier, seed)
     inv = ["Inv_C08", "Inv_C03", "Inv_C01"]   # data/query, gain delivers the whole entity, loss removes it
     vis = dict(kinds=("spawn", "despawn", "setvis", "mutate"), ticks=3)
+    vis_machine(k)
     if tier == "quick":
         k.model_check("MC_Vis_white", mc_consts(policy="white", ops=4, **vis), inv)
         k.model_check("MC_Vis_black", mc_consts(policy="black", ops=3, **vis), inv)
@@ -24,6 +48,8 @@ def main(tier, seed, replay):
         k.validate_profile("vis_white", 150, extra_monitors=VM, extra_fields=VF)
         k.validate_profile("rel_vis", 100, extra_monitors=VM, extra_fields=VF, known=("F20", "F17"))
         k.validate_profile("kf_f20", 1, known=("F20",))
+        for pol in ("black", "white"):
+            k.replay_behaviours(f"TLC_walks_{pol}", mc_consts(policy=pol, kinds=("spawn", "despawn", "setvis", "mutate", "insert", "remove"), ents=("e1", "e2"), clients=("c1", "c2"), ops=8, ticks=6, idle=3, cframes=8), 100, depth=80, extra_monitors=VM, extra_fields=VF)
     else:
         for pol in ("black", "white"):
             k.model_check(f"MC_Vis_{pol}", mc_consts(policy=pol, ops=4, **vis), inv, timeout=3000)
@@ -36,6 +62,8 @@ def main(tier, seed, replay):
         k.validate_profile("vis_white", 3000, extra_monitors=VM, extra_fields=VF)
         k.validate_profile("rel_vis", 1500, extra_monitors=VM, extra_fields=VF, known=("F20", "F17"))
         k.validate_profile("kf_f20", 1, known=("F20",))
+        for pol in ("black", "white"):
+            k.replay_behaviours(f"TLC_walks_{pol}", mc_consts(policy=pol, kinds=("spawn", "despawn", "setvis", "mutate", "insert", "remove"), ents=("e1", "e2"), clients=("c1", "c2"), ops=8, ticks=6, idle=3, cframes=8), 1500, depth=80, extra_monitors=VM, extra_fields=VF)
     k.selftest(tr)
     return k.finish(assumptions=[
         "the visible set of a tick is recomputed by the validator from the recorded ClientVisibility state; messages are decoded by the harness's own wire decoder",
